@@ -115,6 +115,7 @@ func (e *Env) Dial(ctx context.Context, network, addr string) (net.Conn, error) 
 		return fail("connection refused")
 	}
 	c := &Conn{env: e, N: rec.N, Addr: addr, Srv: srv, rwake: make(chan struct{}), OpenedAt: e.Now()}
+	c.CutAfter = e.CutAfterAll
 	c.SC = e.C.NewConn(srv, rec.N)
 	rec.Conn = c
 	e.Conns = append(e.Conns, c)
